@@ -387,10 +387,50 @@ def r4_inverse(program, rep):
               "word to n_bits", construct="float_to_fix mask", node=fn2)
 
 
+def r1_stateless(program, rep):
+    """The conversions are functions of the format and the value: a function
+    of the module that stores into module-level state does so only as a memo
+    whose entries are determined by their keys (decided by MEMO; the format
+    parameters are folded over signed x 1..64 bits)."""
+    from ..effects import Effects
+    from ..memo import memo_verdict
+    eff = Effects(program)
+    for q, fn in program.functions(MOD):
+        inst = "%s:%s" % (MOD, q)
+        if getattr(fn, "_virtual", False):
+            continue
+        for e in eff.analyse(fn):
+            if e.kind != "mutate":
+                continue
+            for o in e.origins:
+                if o[0] != "G" or o[1] == "?":
+                    continue
+                dom = {}
+                for a_ in formals(fn):
+                    if a_ == "signed":
+                        dom[a_] = (True, False)
+                    elif a_ in ("n_bits", "n_frac"):
+                        dom[a_] = range(1, 65) if a_ == "n_bits" else \
+                            range(0, 65)
+                verdict, text = memo_verdict(fn, o[2], dom)
+                if verdict == "unknown":
+                    raise AnalysisError("%s writes the module-level %s: %s"
+                                        % (q, o[2], text))
+                rep.check(verdict == "ok", "C16-R1", inst, "module-level %s "
+                          "is a memo: %s" % (o[2], text),
+                          construct="module state %s" % o[2], node=e.node,
+                          fail="%s answers from the module-level %s: %s" % (
+                              q, o[2], text))
+
+
+r1_stateless.helper_aware = True
+
+
 def check(program, rep):
     program.module(MOD)
     folder = Folder(program)
     rep.guard("C16-R1", r1_scalar, program, rep)
+    rep.guard("C16-R1", r1_stateless, program, rep)
     widths, bounds, fl, n_bits = rep.guard(
         "C16-R2", r2_array, program, folder, rep) or (None,) * 4
     rep.guard("C16-R3", r3_representable, program, folder, rep, widths, fl, n_bits)
